@@ -225,7 +225,7 @@ def main(ck):
     pr = ck.proof('C06', extra_modules=('VtlModel.Sem.AnalyticLemmas',))
     q = ck.quick()
     drv = Driver(ck)
-    n_main = int(os.environ.get("VERIF_N", 0)) or (150 if q else 600)
+    n_main = int(os.environ.get("VERIF_N", 0)) or (190 if q else 700)
     g = GA.AnGen(ck.rng)
     cases = []
     # every function x level and every frame shape x mode at least once (thorough: several times), then random
@@ -235,6 +235,12 @@ def main(ck):
     for mode in ('rows', 'range'):
         for shape in GA.FRAME_SHAPES * (1 if q else 6):
             cases.append(g.case(fn=ck.rng.choice(GA.AGG), shape=shape, mode=mode))
+    # the order-sensitive aggregates on every frame shape (a whole-partition frame still needs its ORDER BY)
+    for fn in ('first_value', 'last_value'):
+        for shape in GA.FRAME_SHAPES * (1 if q else 3):
+            cases.append(g.case(fn=fn, shape=shape, mode='rows'))
+        for _ in range(2 if q else 8):
+            cases.append(g.case(fn=fn, shape='UP-UF', mode=ck.rng.choice(['rows', 'range'])))
     for fn in ('sum', 'count', 'max', 'first_value', 'last_value', 'avg') * (1 if q else 4):        # no window clause
         for lv in ('each', 'calc'):
             cases.append(g.case(fn=fn, level=lv, nowindow=True))
